@@ -18,7 +18,7 @@ mkdir -p $H $ROOT
 rsync -a --delete --exclude 'target*' --exclude '.build.lock' /verif/mc/ $H/
 sed -i "s|turdb = { path = \"/repo\" }|turdb = { path = \"$W\" }|" $H/checks/Cargo.toml
 sed -i "s|turdb = { path = \"/var/tmp/turdb_verif/sched-src\" }|turdb = { path = \"$BASE/sched-src\" }|" $H/sched/harness/Cargo.toml
-rm -rf $ROOT/findings.d; cp -r /verif/findings.d $ROOT/; cp /verif/known_findings.json $ROOT/
+rm -rf $ROOT/findings.d; [ -d /verif/findings.d ] && cp -r /verif/findings.d $ROOT/; cp /verif/known_findings.json $ROOT/
 BIN=$(python3 -c "import json;print(json.load(open('/verif/checks.json'))['$PROP']['bin'])")
 KIND=$(python3 -c "import json;print(json.load(open('/verif/checks.json'))['$PROP'].get('kind','plain'))")
 export CARGO_NET_OFFLINE=true VERIF_ROOT=$ROOT
